@@ -273,10 +273,15 @@ fn complete_handshake(s: &mut Server, port: u16, cfg: &EndpointConfig, t: u64) -
 fn o17_1_many_syns_before_any_ack() {
     let cfg = EndpointConfig::default();
     let mut s = mk_server(2, 1, cfg.clone());
+    // the server's nonces are pinned (whether an ACK carries the right nonce decides a heap-modifying branch, DESIGN.md 10.8);
+    // any nonce, right or wrong, is the subject of o7_1_server_connect_requires_nonce and the o8_2_server_pending_* obligations
+    unsafe { env::RANDOM_FIXED = Some(0x1111_1111); }
     s.handle_frame(addr(A), frame::Frame::HandshakeSynFrame(ok_syn()), 0);
     let na = unsafe { env::RANDOM_LAST };
+    unsafe { env::RANDOM_FIXED = Some(0x2222_2222); }
     s.handle_frame(addr(B), frame::Frame::HandshakeSynFrame(ok_syn()), 0);
     let nb = unsafe { env::RANDOM_LAST };
+    unsafe { env::RANDOM_FIXED = Some(0x3333_3333); }
     assert!(s.clients.len() <= 2, "[C17] never more than max_total_connections tracked");
     s.handle_frame(addr(A), frame::Frame::HandshakeAckFrame(frame::HandshakeAckFrame { nonce_ack: na }), 1);
     assert!(n_established(&s) <= 1);
@@ -995,3 +1000,37 @@ fn o17_1_timed_out_handshake_frees_its_slot() {
 }
 
 
+
+// ---- C17: a handshake refused at ACK time (the active limit was reached meanwhile) does not keep its slot ---------
+//@h props=C17,C07 tier=quick timeout=1200 role=server-limits-ack-refusal args=--no-memory-safety-checks
+//@fn Server::{handle_frame, handle_handshake_ack, handle_handshake_syn}
+//@bound limits (max_total 2, max_active 1); A established and B pending (both states constructed, B's nonces any); B returns the RIGHT nonce and is refused; then B sends a new SYN
+//@assume as o8_2_server_pending_frame_syn (constructed lifecycle states: the same script after handshakes run through the code exhausts CBMC's memory, DESIGN.md 10.8)
+#[kani::proof]
+#[kani::unwind(6)]
+#[kani::stub(crate::frame::serial::crc::compute, crate::frame::serial::verif_codec::crc_stub)]
+fn o17_1_refused_at_ack_time_frees_its_slot() {
+    let cfg = EndpointConfig::default();
+    let mut s = mk_server(2, 1, cfg);
+    let ra = Rc::new(RefCell::new(remote_client::RemoteClient { address: addr(A), max_packet_size: 1000,
+        state: remote_client::State::Active(remote_client::ActiveState { half_connection: oq::HalfConnection::model(), timeout_time_ms: 50_000, disconnect_signal: None }) }));
+    s.clients.insert(addr(A), Rc::clone(&ra));
+    s.active_clients.push(Rc::clone(&ra));
+    let ln: u32 = kani::any();
+    let rn: u32 = kani::any();
+    let rb = Rc::new(RefCell::new(remote_client::RemoteClient { address: addr(B), max_packet_size: 1000,
+        state: remote_client::State::Pending(remote_client::PendingState { local_nonce: ln, remote_nonce: rn, remote_max_receive_rate: 1_000_000, remote_max_receive_alloc: 2_000_000, reply_bytes: Box::new([1u8; 25]) }) }));
+    s.clients.insert(addr(B), Rc::clone(&rb));
+    let t = any_time();
+    s.handle_frame(addr(B), frame::Frame::HandshakeAckFrame(frame::HandshakeAckFrame { nonce_ack: ln }), t);
+    assert!(n_established(&s) == 1 && count_events(&s, B).0 == 0 && unsafe { oq::NEW_COUNT } == 0, "[C17] never more than max_active_connections established");
+    assert!(s.socket.sent_n() == 1 && s.socket.sent(0).port == B && s.socket.sent(0).head[0] == 3 && be32(&s.socket.sent(0).head, 1) == rn && s.socket.sent(0).head[5] == 2, "[C17,C07] refused with ServerFull, echoing the client's nonce");
+    assert!(class_of(&s, B) == 0 && s.clients.len() == 1, "[C17] a handshake refused for lack of capacity does not keep its slot");
+    // (a SYN from a third address is still refused here: the active limit is reached; what matters is that B no longer counts)
+    // B may try again later: its next SYN is treated as a new handshake, not ignored as a duplicate of a tracked address
+    let sent1 = s.socket.sent_n();
+    s.handle_frame(addr(B), frame::Frame::HandshakeSynFrame(ok_syn()), t);
+    assert!(s.socket.sent_n() == sent1 + 1, "[C17] the refused address is not stuck as 'already known': its next SYN is answered (ServerFull while the limit is reached)");
+    std::mem::forget(ra); std::mem::forget(rb);
+    std::mem::forget(s);
+}
